@@ -5,7 +5,7 @@
    Gallina function of the class lookup and the frame remapping (Stacktrace.v, Java.v), so their
    agreement follows from the agreement of the lookups. *)
 From PG Require Import Base Mapping Spec Mapper CacheWriter CacheReader CacheStructDefs
-  MapperProofs CacheBytesProofs WriterInv CacheProofs CacheLayout Stacktrace Java JavaProofs.
+  MapperProofs CacheBytesProofs Domain WriterInv CacheProofs CacheLayout Stacktrace Java JavaProofs.
 
 (* reading back the written bytes gives exactly the written structure *)
 Theorem C02_bytes_roundtrip : forall rs, dom32 rs = true -> sizes_ok rs = true ->
